@@ -9,6 +9,7 @@ import (
 	"go/constant"
 	"go/token"
 	"go/types"
+	"os"
 	"sort"
 	"strings"
 
@@ -18,6 +19,7 @@ import (
 	"polycheck/ob"
 	"polycheck/props"
 	"polycheck/props/c17"
+	"polycheck/ssau"
 )
 
 func init() {
@@ -28,11 +30,18 @@ func init() {
 			"a literal of corner positions that are polynomials in Width, Height, Depth. CUBE-CLOSED: every directed edge of the table occurs exactly once and its reverse exactly once, no degenerate triangle, every " +
 			"index < number of corners (closed, consistently oriented). CUBE-VOLUME: Σ det(p0,p1,p2) over the table equals 6·Width·Height·Depth as a polynomial identity (outward-facing under the right-hand rule, " +
 			"right volume), the corners are pairwise different polynomials. CUBE-NORMAL: the supplied Normal array is position/|position| per corner (identity with sqrt(p)² = p) and for every triangle and each of its " +
-			"corners position · ((p1−p0)×(p2−p0)) is a polynomial in Width, Height, Depth with positive coefficients only, so each supplied normal points to the outer side of every incident face. Sphere, hemisphere, " +
-			"cylinder, and the cube built from rotated quads (trigonometry; index patterns that depend on row / column / side counts) are NOT decided.",
+			"corners position · ((p1−p0)×(p2−p0)) is a polynomial in Width, Height, Depth with positive coefficients only, so each supplied normal points to the outer side of every incident face. " +
+			"Parametrised solids (UVSphere, UVSphereUnwelded, Hemisphere.UV, Cylinder.ToMesh, Circle.ToMesh), with sin / cos as uninterpreted atoms and the single relation sin² + cos² = 1: NORMAL-RADIAL — every " +
+			"supplied normal is a positive multiple of the position of its own vertex (normal × position = 0, normal · position > 0) and every vertex written lies on the sphere of the given radius about the origin; " +
+			"NORMAL-CYL — side arrays completely filled, the horizontal part of each normal is a positive multiple of the horizontal part of the position stored at the same index, the vertical component has the sign of " +
+			"the vertex's height, the un-rotated cap is moved along its own normal; CAP-NORMAL — the disk has one constant unit normal perpendicular to every stored position; SEAM — every loop that emits triangles " +
+			"along a ring uses base + i and base + (i+1) mod n with n = number of iterations = vertices per ring (%, helper, if-wrap or an explicit closing triangle), counter from 0, step 1, no early exit, bases whole " +
+			"rings after the first ring vertex: each ring vertex starts exactly one ring edge and ends exactly one. NOT decided: anything that needs a numeric value of sin or cos (cap orientation, the rotated bottom cap, " +
+			"the cylinder's duplicated seam column, the cube built from rotated quads), pairing across rows, fan / strip winding, volumes of the parametrised solids.",
 		Assumptions: []string{
 			"real arithmetic; Width, Height, Depth > 0",
-			"only the welded cube is decided; the other solids of the property need an inductive edge-pairing argument over all row / column / side counts (or trigonometric identities for the rotated quads) that is out of reach of this family",
+			"radius, height > 0; row / column / side counts as the constructors accept them; sin and cos are uninterpreted, only sin²(x) + cos²(x) = 1 for one and the same x is used",
+			"the clauses are necessary conditions: closedness, orientation and volume of sphere, hemisphere and cylinder as a whole need an induction over rows and numeric trigonometry and are not decided",
 		},
 		Controls: controls,
 		Run:      run,
@@ -96,10 +105,47 @@ func run(c *props.Ctx) {
 	s.EnableExt()
 	k := &checker{c: c, s: s, e: s.Engine(), sp: sp}
 	k.e.MaxPaths = 512
+	if d := os.Getenv("C18_DUMP"); d != "" {
+		k.probe(d)
+	}
 	k.analyse(&rec{c: c}, fn)
+	// the parametrised solids
+	rr := &rec{c: c}
+	for _, a := range solidAnchors {
+		f := P.Func(primRel, a.name)
+		if f == nil || f.Blocks == nil {
+			R.Failf("anchor %s.%s not found", primRel, a.name)
+			continue
+		}
+		for _, rule := range a.rules {
+			k.solidRule(rr, rule, f)
+		}
+	}
 	for _, f := range P.FuncsOf(sp) {
 		if P.IsControl(f.Pos()) && f.Parent() == nil && strings.HasPrefix(f.Name(), "verifControl") {
 			r := &rec{c: c, ctl: true}
+			solidCtl := ""
+			for _, pre := range []struct{ pre, rule string }{{"verifControlRadial", "NORMAL-RADIAL"}, {"verifControlCyl", "NORMAL-CYL"}, {"verifControlCap", "CAP-NORMAL"}, {"verifControlSeam", "SEAM"}} {
+				if strings.HasPrefix(f.Name(), pre.pre) {
+					solidCtl = pre.rule
+				}
+			}
+			if solidCtl != "" {
+				k.solidRule(r, solidCtl, f)
+				got := ob.Holds
+				if r.bad > 0 || r.holds == 0 {
+					got = ob.Violation
+				}
+				want, msg := ob.Holds, "accepted form must stay silent"
+				if strings.Contains(f.Name(), "Bad") {
+					want, msg = ob.Violation, "seeded defect must be reported"
+				}
+				if len(r.msgs) > 0 {
+					msg += ": " + short(r.msgs[0], 240)
+				}
+				R.Control(solidCtl, "control:"+f.Name(), primRel+"/zz_verif_control_c18.go", got, want, msg)
+				continue
+			}
 			k.analyse(r, f)
 			got := ob.Holds
 			if r.bad > 0 || r.holds == 0 {
@@ -124,6 +170,35 @@ func run(c *props.Ctx) {
 	R.Floor("CUBE-CLOSED", 1)
 	R.Floor("CUBE-VOLUME", 1)
 	R.Floor("CUBE-NORMAL", 1)
+	R.Floor("NORMAL-RADIAL", 1)
+	R.Floor("NORMAL-CYL", 1)
+	R.Floor("CAP-NORMAL", 1)
+	R.Floor("SEAM", 3)
+}
+
+// solidAnchors: the constructors of the parametrised solids and the clauses decided on each.
+var solidAnchors = []struct {
+	name  string
+	rules []string
+}{
+	{"UVSphere", []string{"NORMAL-RADIAL", "SEAM"}},
+	{"UVSphereUnwelded", []string{"NORMAL-RADIAL", "SEAM"}},
+	{"Hemisphere.UV", []string{"NORMAL-RADIAL", "SEAM"}},
+	{"Cylinder.ToMesh", []string{"NORMAL-CYL"}},
+	{"Circle.ToMesh", []string{"CAP-NORMAL", "SEAM"}},
+}
+
+func (k *checker) solidRule(r *rec, rule string, f *ssa.Function) {
+	switch rule {
+	case "NORMAL-RADIAL":
+		k.normalRadial(r, f)
+	case "NORMAL-CYL":
+		k.normalCylinder(r, f)
+	case "CAP-NORMAL":
+		k.capNormal(r, f)
+	case "SEAM":
+		k.seam(r, f)
+	}
 }
 
 type checker struct {
@@ -516,4 +591,88 @@ func (k *checker) onePath(r *rec, cons, pos string, rp *c17.Path, res *c17.Resul
 	}
 	out.normal = fmt.Sprintf("normal[i] = position[i]/|position[i]| for every corner (identity with sqrt(p)² = p, full-range loop); position · ((p1−p0)×(p2−p0)) has positive coefficients only in (Width, Height, Depth) for all %d (triangle, corner) pairs", len(tbl))
 	return out
+}
+
+// probe prints the symbolic paths of a function (development aid: C18_DUMP=<pkg func or Type.Method>).
+func (k *checker) probe(name string) {
+	fn := k.c.P.Func(primRel, name)
+	if fn == nil {
+		fmt.Println("no such function", name)
+		return
+	}
+	args := make([]c17.Val, len(fn.Params))
+	for i, p := range fn.Params {
+		args[i] = k.e.Sym(p.Name(), p.Type())
+	}
+	old := k.e.Opaque
+	k.e.Opaque = k.solidOpaque(fn, old)
+	res := k.e.Run(fn, args)
+	k.e.Opaque = old
+	s := k.s
+	fmt.Println("=== probe", name, "paths", len(res.Paths), "problem", res.Problem())
+	for i, p := range res.Paths {
+		fmt.Printf("--- path %d kind=%s abort=%s\n", i, p.Kind, p.Abort)
+		for _, a := range p.Conds {
+			fmt.Printf("    cond %s\n", short(a.Key(), 160))
+		}
+		for _, l := range p.Loops {
+			fmt.Printf("    loop %s condIndex=%d\n", l.ID, l.CondIndex)
+		}
+		for _, ev := range p.Events {
+			lp := ""
+			if ev.Loop != nil {
+				lp = ev.Loop.ID
+			}
+			var as []string
+			for _, a := range ev.Args {
+				as = append(as, short(s.Describe(a), 150))
+			}
+			sid, idx := "", ""
+			if ev.Slice != nil {
+				sid = c17.SliceID(ev.Slice)
+			}
+			if ev.Kind == c17.EvStoreElem {
+				idx = s.Describe(ev.Idx)
+			}
+			fmt.Printf("    event kind=%d loop=%s callee=%s slice=%s idx=%s args=%v val=%s\n", ev.Kind, lp, short(ev.Callee, 60), sid, idx, as, short(s.Describe(ev.Val), 200))
+		}
+		if p.Iter != nil && p.Iter.Entry != nil {
+			for j, hv := range p.Iter.Entry.Havoc {
+				fmt.Printf("    next[%s] %s := %s (init %s)\n", p.Iter.Entry.ID, short(s.Describe(hv), 60), short(s.Describe(p.Iter.Next[j]), 100), short(s.Describe(p.Iter.Entry.Init[j]), 60))
+			}
+		}
+		for _, x := range p.LoopExits {
+			fmt.Printf("    exit %s from block %d (header %d)\n", x.Entry.ID, x.From.Index, x.Entry.Header.Index)
+		}
+		for _, r := range p.Ret {
+			fmt.Printf("    ret %s\n", short(s.Describe(r), 300))
+		}
+		for _, n := range p.Notes {
+			fmt.Printf("    note %s\n", n)
+		}
+	}
+}
+
+// solidOpaque: while a solid's constructor is interpreted, other functions of the package and every
+// repository function that loops (Mesh.Append, Transform, …) stay uninterpreted; small constructors
+// and setters (NewTriangleMesh, SetFloat3Data) and the vector library are looked into.
+func (k *checker) solidOpaque(fn *ssa.Function, old func(*ssa.Function) bool) func(*ssa.Function) bool {
+	return func(f *ssa.Function) bool {
+		if old != nil && old(f) {
+			return true
+		}
+		if f == fn {
+			return false
+		}
+		pp := ""
+		if f.Pkg != nil {
+			pp = f.Pkg.Pkg.Path()
+		} else if o := f.Origin(); o != nil && o.Pkg != nil {
+			pp = o.Pkg.Pkg.Path()
+		}
+		if pp == load.Module || strings.HasPrefix(pp, load.Module+"/") {
+			return len(ssau.Loops(f)) > 0
+		}
+		return false
+	}
 }
